@@ -307,7 +307,8 @@ def build_objs(ant):
             if o.get('segtype'):
                 w.segtype = o['segtype']
             gs.append(w)
-    return _mk(ant, ant['f'], gs)
+    from mininec.mininec import ideal_ground
+    return _mk(ant, ant['f'], gs, media=[ideal_ground] if ant.get('ground') else None)
 
 
 def build(ant, media=None):
